@@ -915,9 +915,9 @@ def report(ctx, rejected):
 def run(ctx):
     quick = ctx.tier == "quick"
     rng = random.Random(ctx.seed)
-    consts = {"W": LATW, "H": LATH, "MaxN": 4 if quick else 5,
-              "Es": {1, 3, 5, 9, 11, 17} if quick else {1, 3, 5, 9, 11, 17, 21},
-              "FluxPats": {"zig", "tie", "neg"} if quick else {"neg", "zig", "tie", "flat"}}
+    consts = {"W": LATW, "H": LATH, "MaxN": 4 if quick else 5, "DupMaxN": 4,
+              "Es": {1, 3, 5, 9, 11, 17} if quick else {1, 3, 5, 9, 11, 17, 19, 21, 27},
+              "FluxPats": {"zig", "tie", "neg"} if quick else {"down", "neg", "zig", "tie", "flat"}}
     res = ctx.tlc("MC_Regroup", common.cfg(
         spec="Spec", constants=consts,
         invariants=["WellPosed", "PartitionThm", "ChainThm", "ComponentsThm", "PermInvariantThm",
@@ -939,8 +939,8 @@ def run(ctx):
                        "orders) judged by TLC; distinct = distinct (generator, route, positions, linking length, "
                        "flux pattern, anchor)")
     ctx.cov["exhaustive"] = True
-    ctx.cov["domain"] = {"model": "multisets of <=%d points on %dx%d lattice x flux %s x E %s: %d cases, each replayed"
-                                  % (consts["MaxN"], LATW, LATH, sorted(consts["FluxPats"]), sorted(consts["Es"]), len(cases)),
+    ctx.cov["domain"] = {"model": "point sets of <=%d points (multisets up to %d) on %dx%d lattice x flux %s x E %s: %d cases, each replayed"
+                                  % (consts["MaxN"], consts["DupMaxN"], LATW, LATH, sorted(consts["FluxPats"]), sorted(consts["Es"]), len(cases)),
                          "jobs": len(jobs), "catalogues_with_2..n-1_groups": stats["multi"],
                          "regenerated_inputs": stats["regen"]}
     for s in stats["samples"]:
